@@ -92,10 +92,12 @@ class Transform(Unit):
             x0 = g.point_any(spec.lb, spec.ub)
             y0 = g.vec(spec.m, kmax=8, jmax=1)
             dt = g.vec(len(xt), kmax=8, jmax=1)
+            policy = g.rng.choice(["fresh", "memo", "memo", "refill"])
             cases.append({"spec": spec.to_json(), "sc": sc, "x": xt, "y": yt, "x0": x0, "y0": y0, "d": dt,
                           "fmt": g.rng.choice(["coo", "csr", "csc"]),
-                          "explicit_zeros": g.rng.random() < 0.3, "dup": g.rng.random() < 0.3,
-                          "policy": g.rng.choice(["fresh", "memo", "memo"]), "twice": g.rng.random() < 0.6})
+                          "explicit_zeros": g.rng.random() < 0.3 or policy == "refill",
+                          "dup": g.rng.random() < 0.3 and policy != "refill",
+                          "policy": policy, "twice": g.rng.random() < 0.6})
         return cases
 
     def impl(self, case):
@@ -105,6 +107,13 @@ class Transform(Unit):
         T = tr.trans_problem
         x = np.array(case["x"])
         y = np.array(case["y"])
+        if case.get("policy") == "refill":
+            # another point first: the callbacks then hand out the same objects again, refilled
+            x1 = x + 1.0
+            y1 = y - 1.0
+            T.obj(x1), T.obj_grad(x1), T.lag_hess(x1, y1)
+            if spec.m > 0:
+                T.cons(x1), T.cons_jac(x1)
         if case.get("twice"):
             # the functions of the internal problem must not depend on what was evaluated before (a problem
             # that memoises its results per point hands out the same objects again)
